@@ -82,6 +82,19 @@ def inSwept (p a b : Rat × Rat × Rat) (ra rb t : Rat) : Bool :=
   let r := ra + t * (rb - ra)
   decide ((p.1 - cx) * (p.1 - cx) + (p.2.1 - cy) * (p.2.1 - cy) + (p.2.2 - cz) * (p.2.2 - cz) ≤ r * r)
 
+/-- squared distance of two points -/
+def sqd (a b : Rat × Rat × Rat) : Rat :=
+  (a.1 - b.1) * (a.1 - b.1) + (a.2.1 - b.2.1) * (a.2.1 - b.2.1) + (a.2.2 - b.2.2) * (a.2.2 - b.2.2)
+
+/-- `_get_scene`: `norm(c - n) <= abs(n.r - c.r)` — one end ball contains the other (squared form; both sides
+are non-negative) -/
+def edgeIsBall (a b : Rat × Rat × Rat) (ra rb : Rat) : Bool := decide (sqd a b ≤ (ra - rb) * (ra - rb))
+
+/-- the ball such an edge is replaced by: `big = n if n.r >= c.r else c` -/
+def edgeBall (a b : Rat × Rat × Rat) (ra rb : Rat) : (Rat × Rat × Rat) × Rat := if ra ≥ rb then (a, ra) else (b, rb)
+
+def inBall (p : Rat × Rat × Rat) (c : (Rat × Rat × Rat) × Rat) : Bool := decide (sqd p c.1 ≤ c.2 * c.2)
+
 /-! ## driver -/
 def handle (what : String) (args : List String) : String :=
   match what with
@@ -98,5 +111,17 @@ def handle (what : String) (args : List String) : String :=
     match argRat args "lo", argRat args "hi", argRat args "res" with
     | some lo, some hi, some res => Resample.showRats (axisCentres lo hi res)
     | _, _, _ => "bad-args"
+  | "imgedge" =>      -- `imgedge a=x,y,z b=x,y,z ra= rb=` → which solid `_get_scene` adds for the edge
+    match Resample.argRats args "a", Resample.argRats args "b", argRat args "ra", argRat args "rb" with
+    | some pa, some pb, some ra, some rb =>
+      match pa, pb with
+      | [ax, ay, az], [bx, by', bz] =>
+        let a := (ax, ay, az); let b := (bx, by', bz)
+        if edgeIsBall a b ra rb then
+          let c := edgeBall a b ra rb
+          s!"ball {Resample.showRats [c.1.1, c.1.2.1, c.1.2.2, c.2]}"
+        else "cone"
+      | _, _ => "bad-args"
+    | _, _, _, _ => "bad-args"
   | _ => "bad-op"
 end Img
